@@ -533,7 +533,7 @@ def run(ctx):
     crash_runs = full_runs = 0
     steps_all = set()
     fallback = None
-    for item, r in pool.pmap(crash_work, [[it] for it in items]):
+    for item, r in pool.pmap(crash_work, [[it] for it in items], item_timeout=3600):
         if isinstance(r, (pool.WorkerError, pool.Crash)):
             raise InfraError(repr(r))
         if "excluded" in r:
@@ -553,7 +553,7 @@ def run(ctx):
     bound = 1 if ctx.quick else 2
     ord_exec = 0
     maxpts = 0
-    for item, r in pool.pmap(order_work, [[(n, t, bound)] for n, t in cps]):
+    for item, r in pool.pmap(order_work, [[(n, t, bound)] for n, t in cps], item_timeout=3600):
         if isinstance(r, (pool.WorkerError, pool.Crash)):
             raise InfraError(repr(r))
         ord_exec += r["executions"]
@@ -565,7 +565,7 @@ def run(ctx):
     seeds = [0, 1, 2, 3, 4, 5, 6, "random"] if ctx.quick else list(range(31)) + ["random"]
     jobs = [(s, i) for i, s in enumerate(seeds)]
     res = {}
-    for item, r in pool.pmap(seed_work, [[j] for j in jobs]):
+    for item, r in pool.pmap(seed_work, [[j] for j in jobs], item_timeout=3600):
         if isinstance(r, (pool.WorkerError, pool.Crash)):
             raise InfraError(repr(r))
         for line in r["lines"]:
